@@ -40,7 +40,7 @@ ASSUMPTIONS = [
     'delays are compared with tolerance 1e-9',
 ]
 SHARDS = {'quick': 4, 'thorough': 16}
-TIMEOUT = {'quick': 400, 'thorough': 2400}
+TIMEOUT = {'quick': 900, 'thorough': 3600}
 ANCHORS = [
     ('pjrpc/client/retry.py', 'retry'), ('pjrpc/client/retry.py', 'retry_async'),
     ('pjrpc/client/retry.py', 'PeriodicBackoff.__call__'), ('pjrpc/client/retry.py', 'ExponentialBackoff.__call__'),
